@@ -162,6 +162,16 @@ theorem C11_skip_fact :
     Thanos.Facts.postingsOffsetBufInit = ["buf := 0", "skipNAndName(&d, &buf)", "skipNAndName(&d, &buf)"] := by
   decide
 
+/-- regenerated fact: the in-memory index-header owns its bytes — NewMemoryWriter allocates a fresh
+    buffer, MemoryWriter.Close only flushes (it hands the buffer to nobody), and the package has no
+    package-level pool.  (The model takes a header's bytes as an immutable value: this is the
+    condition under which it may.) -/
+theorem C11_memory_header_owned_fact :
+    Thanos.Facts.memoryWriterCtorStmts =
+      ["return &MemoryWriter{ id: id, buf: bytes.NewBuffer(make([]byte, 0, size)), pos: 0, }"] ∧
+    Thanos.Facts.memoryWriterCloseStmts = ["return mw.Flush()"] ∧
+    Thanos.Facts.indexheaderPoolVars = [] := by decide
+
 /-! regenerated facts: the statements of LookupSymbol, LabelNames and the v1 branch are the ones
     transliterated in Model/IndexHeader.lean -/
 
